@@ -56,7 +56,7 @@ ASSUMPTIONS = [
 
 def plan(tier):
     if tier == "thorough":
-        return {"runs": 40000, "slice": 100, "budget_s": 2400,
+        return {"runs": 40000, "slice": 50, "budget_s": 2400,
                 "slice_timeout_s": 1200}
     return {"runs": 480, "slice": 10, "budget_s": 150,
             "slice_timeout_s": 400}
